@@ -86,10 +86,34 @@ def prior_activity(seed=0):
         shutil.rmtree(d, True)
 
 
+TMPDIRS = []
+
+
 def tmpdir(prefix="mpv_"):
     d = tempfile.mkdtemp(prefix=prefix)
     atexit.register(shutil.rmtree, d, True)
+    TMPDIRS.append(d)
     return d
+
+
+def files_left_open():
+    """files under the check's scratch directories that this process still holds open (after a garbage collection): data files, command files,
+    datasets a command opened and did not close"""
+    import gc
+    gc.collect()
+    left = []
+    try:
+        fds = os.listdir("/proc/self/fd")
+    except OSError:
+        return left
+    for fd in fds:
+        try:
+            target = os.readlink("/proc/self/fd/" + fd)
+        except OSError:
+            continue
+        if any(target.startswith(d + os.sep) for d in TMPDIRS):
+            left.append(target)
+    return sorted(left)
 
 
 # ---------------------------------------------------------------- Lean side
@@ -395,6 +419,12 @@ class Ctx(object):
 
     # -- verdict
     def finish(self, level="proof", rule="", explanation="", checker_cmd=None):
+        # every file a command opened is closed again by the time its run is over (a reader that leaves its table open makes the hundredth model of
+        # a process fail, and keeps a table from being rewritten on some systems): nothing under the scratch directories is still open
+        left = files_left_open()
+        self.count("scratch_files_still_open", len(left))
+        if left:
+            self.fail("%d file(s) opened while models ran were never closed: %s" % (len(left), ", ".join(os.path.basename(x) for x in left[:5])), {"files": left[:20]})
         os.makedirs(os.path.join(VERIF, "evidence"), exist_ok=True)
         os.makedirs(os.path.join(VERIF, "replays"), exist_ok=True)
         violations = []
